@@ -42,6 +42,15 @@ TBASES = [
     {'name': 'close_text_vs_two_pings',
      'threads': [[_CLOSE], [{'op': 'send_text', 'text': 'T2-0-' + 'q' * 80}]],
      'loop': ['ping', 'ping']},
+    # an application thread is inside a send (holds the write lock, half of
+    # its frame out) when the Ping is handled; the consumer of the event loop
+    # reacts to the Ping event with a send of its own: the Pong comes first
+    {'name': 'sender_vs_ping_with_reaction',
+     'threads': [[{'op': 'send_binary', 'hex': (b'T1-0-' + b'b' * 300).hex()},
+                  {'op': 'send_text', 'text': 'T1-1-' + 'c' * 90}]],
+     'loop': ['ping'],
+     'app': [{'when': {'name': 'ping'},
+              'do': [{'op': 'send_text', 'text': 'reaction-to-ping'}]}]},
 ]
 _TINFO = {}
 
@@ -127,7 +136,24 @@ def _execute_threaded(case):
         npongs = ops[:k].count(peer.OP_PONG)
         if npongs > len([e for e in tr.events if e.name == 'ping']):
             res.bad('C14/threaded/too_many_pongs', '%r' % ops)
-    res.nontrivial = peer.OP_CLOSE in ops
+    if case.get('app') and not wire.incomplete:
+        # the Pong precedes what the application writes in reaction to the
+        # Ping event (and it is there at all: nothing closed, nothing failed)
+        react = [i for i, f in enumerate(wire.frames)
+                 if f.opcode == 1 and f.payload == b'reaction-to-ping']
+        pongs = [i for i, f in enumerate(wire.frames)
+                 if f.opcode == peer.OP_PONG]
+        res.stats['probe:threaded_reaction_to_ping'] += bool(react)
+        if react and (not pongs or pongs[0] > react[0]):
+            res.bad('C14/threaded/pong_after_reaction',
+                    'wire %s | %s' % ([peer.OPNAME.get(o, o) for o in ops],
+                                      T.site_signature(sched)))
+        if any(e.name == 'ping' for e in tr.events) and not pongs and \
+                peer.OP_CLOSE not in ops:
+            res.bad('C14/threaded/ping_not_answered',
+                    'wire %s | %s' % ([peer.OPNAME.get(o, o) for o in ops],
+                                      T.site_signature(sched)))
+    res.nontrivial = peer.OP_CLOSE in ops or bool(case.get('app'))
     res.sig = 'thr|%s|%s' % (case['name'], T.site_signature(sched))
     res.sample = {'base': case['name'], 'schedule': case.get('schedule'),
                   'wire': [peer.OPNAME.get(o, o) for o in ops]}
